@@ -319,6 +319,36 @@ def read_decode_sites(tree):
     return out
 
 
+def read_try_encodings(tree):
+    """tryEncodings, the branch without chardet: -> (encodings tuple, the name that gets the extra test, the codec of
+    the extra test, the character looked for, the name returned by the extra test)"""
+    f = func(tree, 'tryEncodings')
+    encs = special = alt = needle = altret = None
+    fors = [n for n in ast.walk(f) if isinstance(n, ast.For)]
+    need(len(fors) == 1 and isinstance(fors[0].target, ast.Name) and isinstance(fors[0].iter, ast.Name),
+         'tryEncodings: one `for <name> in <tuple name>` loop')
+    var, tup = fors[0].target.id, fors[0].iter.id
+    for n in ast.walk(f):
+        if isinstance(n, ast.Assign) and len(n.targets) == 1 and is_name(n.targets[0], tup):
+            need(isinstance(n.value, ast.Tuple), 'tryEncodings: the loop runs over a tuple literal')
+            encs = [const_str(e) for e in n.value.elts]
+        if isinstance(n, ast.If) and isinstance(n.test, ast.Compare) and len(n.test.ops) == 1:
+            t = n.test
+            if isinstance(t.ops[0], ast.Eq) and isinstance(t.left, ast.Constant) and is_name(t.comparators[0], var):
+                need(special is None, 'tryEncodings: one special name')
+                special = const_str(t.left)
+            if isinstance(t.ops[0], ast.In) and isinstance(t.left, ast.Constant):
+                c = t.comparators[0]
+                need(isinstance(c, ast.Call) and isinstance(c.func, ast.Attribute) and c.func.attr == 'decode'
+                     and is_name(c.func.value, 'text') and len(c.args) == 1, 'tryEncodings: `<char> in text.decode(<codec>)`')
+                needle, alt = const_str(t.left), const_str(c.args[0])
+                need(len(needle) == 1, 'tryEncodings: one character looked for')
+                need(len(n.body) == 1 and isinstance(n.body[0], ast.Return), 'tryEncodings: return under the extra test')
+                altret = const_str(n.body[0].value)
+    need(None not in (encs, special, alt, needle, altret), 'tryEncodings parts')
+    return encs, special, alt, needle, altret
+
+
 def split_pattern(pattern, flags, group='encstr'):
     """the pattern as (before, group body, after), each a relib AST. Requires `^` first (then `search` on a
     pattern without re.M is `match` at offset 0) and the named group at top level."""
@@ -390,6 +420,7 @@ def generate(repo):
     parts = split_pattern(pattern, flags)
     meta_lits = read_meta_parser(tree)
     decode_sites = read_decode_sites(tree)
+    try_parts = read_try_encodings(tree)
     # self-check of the split against CPython's re (group span)
     rx = re.compile(pattern, flags)
     for t in SELF_CHECK:
@@ -502,6 +533,16 @@ def generate(repo):
     for i, (fn, x, c) in enumerate(decode_sites):
         w('  %s%s  -- %s: %s.decode(%r)' % (lean_str(c), ',' if i + 1 < len(decode_sites) else '', fn, x, c))
     w(']')
+    w('')
+    w('/-! `tryEncodings`, the branch without chardet -/')
+    w('def tryEncodingsList : List (List Nat) := [')
+    for i, e in enumerate(try_parts[0]):
+        w('  %s%s  -- %r' % (lean_str(e), ',' if i + 1 < len(try_parts[0]) else '', e))
+    w(']')
+    w('def trySpecial : List Nat := %s  -- %r' % (lean_str(try_parts[1]), try_parts[1]))
+    w('def tryAltCodec : List Nat := %s  -- %r' % (lean_str(try_parts[2]), try_parts[2]))
+    w('def tryNeedle : Nat := %d  -- %r' % (ord(try_parts[3]), try_parts[3]))
+    w('def tryAltReturn : List Nat := %s  -- %r' % (lean_str(try_parts[4]), try_parts[4]))
     w('')
     w('end CssVerif.Gen.C20')
     return {'CssVerif/Gen/C20Tables.lean': '\n'.join(o) + '\n'}
